@@ -182,3 +182,31 @@ def r_C03j(root):
             ob("C03", "C03.j", L, q.split(".")[-1], "%s.root is read only for nodes that are not syntactic predicates" % v, ok)
             if not ok: out.append(Finding("C03", "C03.j", L, q.split(".")[-1], " ".join(ast.unparse(stmt_of(u)).split())[:90], "a rule referenced inside a syntactic predicate (!X / &X) is taken as a class the rule yields: the predicate leaves no result at run time, so the rule kind and the inheritance list disagree with the objects the rule produces (textx_isinstance is False for them)", witness="A: !B C | B;   — the C objects do not conform to A"))
     return inst, out
+
+def r_C03k(root):
+    """C03.k  the visited set of one typing pass lives for one pass: the set that _determine_rule_type consults to return
+       early (`if cls in S: return`) is created anew inside the `while has_change` loop, before the classes are visited.
+       Created once outside the loop it makes every pass after the first a no-op, and the fixpoint never sees the kinds
+       learned in the first pass (cyclic rules stay 'match')."""
+    L = "textx/lang.py"; out = []; inst = 0
+    t = load(root, L); outer = find(t, "TextXVisitor._determine_rule_types"); inner = find(t, "TextXVisitor._determine_rule_types._determine_rule_type")
+    fi = sem.info(inner); p0 = inner.args.args[0].arg
+    S = None
+    for n in inner.body[:4]:
+        if isinstance(n, ast.If) and any(isinstance(b, ast.Return) for b in n.body):
+            for x in ast.walk(n.test):
+                if isinstance(x, ast.Compare) and len(x.ops) == 1 and isinstance(x.ops[0], ast.In) and isinstance(x.left, ast.Name) and x.left.id == p0 and isinstance(x.comparators[0], ast.Name): S = x.comparators[0].id
+    if S is None: raise AnalysisError("_determine_rule_type: visited-set guard not found")
+    loops = [n for n in own_nodes(outer) if isinstance(n, ast.While) and "has_change" in ast.unparse(n.test)]
+    if not loops: raise AnalysisError("_determine_rule_types: change-driven loop not found")
+    inst += 1
+    lp = loops[0]
+    created = [n for n in ast.walk(lp) if isinstance(n, ast.Assign) and any(isinstance(tg, ast.Name) and tg.id == S for tg in n.targets) and ast.unparse(n.value) in ("set()", "{}", "[]", "dict()", "list()")]
+    cleared = [n for n in ast.walk(lp) if isinstance(n, ast.Call) and isinstance(n.func, ast.Attribute) and n.func.attr == "clear" and ast.unparse(n.func.value) == S]
+    visit = next((n for n in ast.walk(lp) if isinstance(n, ast.Call) and callee_name(n) == inner.name), None)
+    ok = bool(created or cleared) and visit is not None and all(x.lineno < visit.lineno for x in created + cleared)
+    ob("C03", "C03.k", L, "TextXVisitor._determine_rule_types", "visited set %s is re-created in every pass of the fixpoint" % S, ok)
+    if not ok:
+        for pr in ("C03", "C01"):
+            out.append(Finding(pr, "C03.k", L, "TextXVisitor._determine_rule_types", "while has_change[0]: ... %s" % S, "the visited set %s is not re-created at the start of each pass: after the first pass every class counts as visited, the later passes do nothing and rule kinds that depend on a rule typed later (circular references) stay 'match'" % S, witness="Expr: Paren | Num; Paren: '(' Expr ')'; Num: v=INT;  input (5)"))
+    return inst, out
